@@ -224,7 +224,8 @@ func (t *wScreen) EnableMouse(flags ...MouseFlags) {
 }
 
 func (t *wScreen) enableMouse(f MouseFlags) {
-	if f&MouseButtonEvents != 0 {
+	// (drag and motion tracking include the button events)
+	if f&(MouseButtonEvents|MouseDragEvents|MouseMotionEvents) != 0 {
 		js.Global().Set("onMouseClick", js.FuncOf(t.onMouseEvent))
 	} else {
 		js.Global().Set("onMouseClick", js.FuncOf(t.unset))
